@@ -1,4 +1,5 @@
 import XlModel.Date
+import XlModel.DateRender
 import XlModel.Drv.Util
 /-
 Line-protocol driver for C19 (see harness/cmd/vh/c19.go for the Go side).
@@ -17,6 +18,9 @@ Line-protocol driver for C19 (see harness/cmd/vh/c19.go for the Go side).
                         (model: `Impl.timeToExcelTimeF` instantiated with `Float`)
   cell <wb> <pre> <y> … <off> <zone>   SetCellValue(time) on a fresh workbook through the public API
                         (model: `Impl.setCellTimeFunc` — workbook flag, `getTimeNumFmt`, `setDefaultTimeStyle`)
+  rend <sys> <y> … <off> <zone> <bits15>   SetCellValue(time) then GetCellValue under the default style and
+                        under yyyy-mm-dd hh:mm:ss (model: encoder + glue of C19, `DateRender.render` = C10's
+                        `dateTimeHandler` on C19's decoder, token lists of `DateRender.itemsOf`)
   dur <ns> <bits>       SetCellValue(time.Duration): error of the float32-formatted text, nearest second,
                         `getDurationNumFmt`
   edt <sys> <bits>      ExcelDateToTime (model: `Impl.excelDateToTimeF` on `Float`)
@@ -153,6 +157,29 @@ def step (w : List String) : String :=
       | some x => s!"bits={bits} fmt={x.numFmt} custom={b2s x.custom} bold={b2s x.bold}"
       | none => s!"bits={bits} fmt=0 custom=0 bold=0"
     | _, _, _, _, _, _, _, _ => "bad-op"
+  | ["rend", sys, y, m, d, h, mi, s, off, _zone, bits15] =>
+    match parseInt? y, parseInt? m, parseInt? d, parseInt? h, parseInt? mi, parseInt? s, parseInt? off with
+    | some y, some m, some d, some h, some mi, some s, some off =>
+      let c : Civil := { y := y, m := m, d := d, h := h, mi := mi, s := s, ns := 0 }
+      let flag := sys = "1"
+      let wall := instantOf c
+      match Impl.setCellTimeFunc (if flag then some true else none) none (wall - off * nsPerSec) off c with
+      | (.num _, some sty) =>
+        let encBits := (Impl.timeToExcelTimeF floatOps wall flag).toBits.toNat
+        match ratOfBits encBits, (parseHexNat bits15).bind ratOfBits with
+        | some x, some x15 =>
+          let dlt := x15 - x
+          let e15 := if (if dlt < 0 then -dlt else dlt) ≤ x * ((5 : Rat) / 1000000000000000) then "1" else "0"
+          let showOut (o : NumFmt.Out) : String := match o with
+            | .ok str => hexS str
+            | .panic => "PANIC"
+            | .unmodelled => "UNMODELLED"
+            | .fallback => "FALLBACK"
+          let toks := ",".intercalate ((DateRender.itemsOf sty.numFmt).map fun t => t.ty ++ ":" ++ hexS t.val)
+          s!"enc={hex16 encBits} e15={e15} fmt={sty.numFmt} toks={toks} out={showOut (DateRender.render (DateRender.itemsOf sty.numFmt) x15 flag)} iso={showOut (DateRender.render DateRender.itemsIso x15 flag)}"
+        | _, _ => "bad-op"
+      | _ => "text"
+    | _, _, _, _, _, _, _ => "bad-op"
   | ["dur", ns, bits] =>
     match parseInt? ns, (parseHexNat bits).bind ratOfBits with
     | some ns, some x =>
